@@ -101,6 +101,7 @@ class FakeTransport(asyncio.Transport):
             self.net.ev("write_fault", self.cid, bytes(data))
             self._force_close(WRITE_ERRORS[self.fail_kind % len(WRITE_ERRORS)]())
             return
+        self.written_all = getattr(self, "written_all", b"") + bytes(data)      # (for a peer that echoes what it received)
         self.net.ev("write", self.cid, bytes(data))
         if self.paused and not isinstance(data, bytes):
             # a real transport that cannot send right away keeps the OBJECT it was given (asyncio 3.12 does not copy): what finally
